@@ -21,7 +21,12 @@ CONSTANTS
     AbsLookup,            \* F4  prune looks the absolute path up inside the newer subtree
     FnTruthyWhenEmpty,    \* F5  emptied function node survives a delete
     StreamLeaksMerge,     \* F6  StreamNode hands implicit_delete=False to its stages
-    DefaultSafeOverwrite  \* F7  _replace_* overwrite _default_safe instead of and-ing
+    DefaultSafeOverwrite, \* F7  _replace_* overwrite _default_safe instead of and-ing
+    \* One named design mutation ("none" in every real cfg).  Mutation cfgs set
+    \* it and expect TLC to refute the property: the vacuity guard.
+    Mutation
+
+Mut(name) == Mutation = name
 
 ----------------------------------------------------------------------------
 \* Keys
@@ -50,7 +55,9 @@ IsFn(n)       == n.k \in FnKinds
 IsPlainComposed(n) == n.k \in {"dict", "list"}
 
 \* class attribute _default_delete (list.py:22, function.py:20, stream.py:20)
-TypeDefaultDelete(n) == n.k \in {"list", "append", "extend", "path", "call", "bind"}
+TypeDefaultDelete(n) ==
+    n.k \in ({"list", "append", "extend", "path", "call", "bind"}
+             \ (IF Mut("ListsMergeByDefault") THEN {"list"} ELSE {}))
 
 NoVal == <<"", "">>
 Atom(t, s) == <<t, s>>
@@ -171,5 +178,22 @@ Unordered(d) ==
     IF d.k = "list"
     THEN [k |-> "list", v |-> NoVal, ch |-> [i \in 1..Len(d.ch) |-> <<d.ch[i][1], Unordered(d.ch[i][2])>>]]
     ELSE [k |-> d.k, v |-> d.v, ch |-> {<<d.ch[i][1], Unordered(d.ch[i][2])>> : i \in 1..Len(d.ch)}]
+
+----------------------------------------------------------------------------
+\* A compact JSON-friendly rendering of plain data, used when TLC prints the
+\* expected outcome of a behaviour: scalar -> "t:text"; list -> array;
+\* mapping -> [d |-> <<<<"t:key", value>>, ...>>] (order kept);
+\* function node -> additionally [c |-> kind, f |-> target].
+KeyStr(k) == k.t \o ":" \o (IF k.t = "i" THEN ToString(k.n) ELSE k.s)
+AtomStr(a) == a[1] \o ":" \o a[2]
+
+RECURSIVE Compact(_)
+Compact(d) ==
+    IF d.k = "list" THEN [i \in 1..Len(d.ch) |-> Compact(d.ch[i][2])]
+    ELSE IF d.k = "dict" THEN [d |-> [i \in 1..Len(d.ch) |-> <<KeyStr(d.ch[i][1]), Compact(d.ch[i][2])>>]]
+    ELSE IF d.k \in FnKinds THEN [c |-> d.k, f |-> d.v[2],
+                                   d |-> [i \in 1..Len(d.ch) |-> <<KeyStr(d.ch[i][1]), Compact(d.ch[i][2])>>]]
+    ELSE IF d.k = "scalar" THEN AtomStr(d.v)
+    ELSE [n |-> d.k]
 
 =============================================================================
